@@ -22,8 +22,8 @@ PLAN = {
                       codec(variant="asan", part="heap", tiers=["thorough"]),
                       codec(variant="checkptr", part="heap", tiers=["thorough"])]},
     "C03": {"steps": [net(scale={"thorough": 3}), net(variant="race", tiers=["thorough"])]},
-    "C04": {"steps": [net(scale={"thorough": 5}), net(variant="race", tiers=["thorough"])]},
-    "C06": {"steps": [net(scale={"thorough": 6}), net(variant="race", tiers=["thorough"])]},
+    "C04": {"steps": [net(scale={"thorough": 2}), net(variant="race", tiers=["thorough"])]},
+    "C06": {"steps": [net(scale={"thorough": 2.5}), net(variant="race", tiers=["thorough"])]},
     "C07": {"steps": [net(scale={"thorough": 5})]},
     "C08": {"steps": [codec(scale={"thorough": 15})]},
     "C10": {"steps": [codec(scale={"thorough": 15})]},
@@ -37,7 +37,7 @@ PLAN = {
     "C09": {"steps": [net(), net(variant="race", tiers=["thorough"], scale={"thorough": 0.05})]},
     "C11": {"steps": [net(address_space_kb=12 * 1024 * 1024, scale={"thorough": 3})]},
     "C18": {"steps": [net(), net(variant="race")]},
-    "C19": {"steps": [net(scale={"thorough": 3}), net(variant="race", tiers=["thorough"])]},
+    "C19": {"steps": [net(), net(variant="race", tiers=["thorough"])]},
     "C20": {"steps": [net(scale={"thorough": 4}), net(variant="race", tiers=["thorough"])]},
 }
 LEVEL["C09"] = "fault_enumeration"
